@@ -189,14 +189,19 @@ P = K + "/service/period"
 
 def c15_jobs(tier):
     js = [job("ZZ_C15_Hashes", P)]
-    windows = [0, 3, 4, 19, 20, 99] if tier == "quick" else list(range(100))
-    pat_windows = [0, 20, 99] if tier == "quick" else list(range(100))
-    for c in windows:
-        js.append(job("ZZ_C15_DateFacts", P, century=c, _split=65536))
-        js.append(job("ZZ_C15_Week", P, century=c, _split=65536))
-        js.append(job("ZZ_C15_MonthQuarterYear", P, century=c, _split=65536))
+    if tier == "quick":
+        # decade windows around the interesting years (0000, the 400-year rule, 1900, 2000, 9999)
+        windows = [(0, 10), (395, 10), (1895, 10), (1996, 10), (9990, 10)]
+        pat_windows = [20]
+    else:
+        windows = [(c * 100, 100) for c in range(100)]
+        pat_windows = list(range(100))
+    for frm, span in windows:
+        js.append(job("ZZ_C15_DateFacts", P, **{"from": frm, "span": span, "_split": 65536}))
+        js.append(job("ZZ_C15_Week", P, **{"from": frm, "span": span, "_split": 65536}))
+        js.append(job("ZZ_C15_MonthQuarterYear", P, **{"from": frm, "span": span, "_split": 65536}))
     for c in pat_windows:
-        for n in [4, 7, 8]:
+        for n in ([4, 7] if tier == "quick" else [4, 7, 8]):
             js.append(job("ZZ_C15_Pattern", P, n=n, century=c, _split=65536))
     for n in [0, 1, 2, 3, 5, 6, 9]:
         js.append(job("ZZ_C15_Pattern", P, n=n, century=20))
@@ -253,7 +258,7 @@ CHECKS = {
     "C15": {
         "jobs": c15_jobs,
         "bounds": {
-            "quick": "every date of the century windows {00,03,04,19,20,99} (weekday, ISO week/week-year, quarter, +-1 day, week/month/quarter/year periods and predecessors); hash packing for all field values 0..9999/1..12/1..31/1..53; every pattern string of length 0..9 with the year in windows {00,20,99}",
+            "quick": "every date of the decade windows 0000-0009, 0395-0404, 1895-1904, 1996-2005, 9990-9999 (weekday, ISO week/week-year, quarter, +-1 day, week/month/quarter/year periods and predecessors); hash packing for all field values 0..9999/1..12/1..31/1..53; every pattern string of length 0..7 and 9 with the year in 2000-2099",
             "thorough": "all 100 century windows = every date 0000-01-01..9999-12-31, every pattern string with years 0000-9999",
         },
         "outside": "the first two weeks of year 0000 and the last week of 9999 for week periods, predecessors of the first month/quarter/year of 0000 (klog panics there: not representable, excluded like in C13's quantifier); pattern strings longer than 9 bytes",
